@@ -141,6 +141,8 @@ class StmtMixin:
         if env.dead:
             return
         exits.append((list(env.pc), v, env.heap, list(env.facts)))
+        if getattr(self, "log_exit_vars", False):
+            self.exit_vars.append((len(self.where), dict(env.vars)))      # (call depth, local variables) at this return
         env.dead = True
 
     def st_Raise(self, s, env, mod, fn, exits):
